@@ -163,6 +163,32 @@ def others(rep, rng, tier):
                 ch = list(ds.random_choice(size, rng_state=np.random.RandomState(seed)))
                 if len(set(ch)) != len(ch) or not set(ch) <= set(vals) or len(ch) != size:
                     fails.append(('random_choice_without_replacement', {'values': vals, 'size': size, 'out': ch}))
+            if isinstance(src, dict):
+                # the keyed views of the same shuffles: a permutation of the (key, example) PAIRS of the input, in
+                # the order of the plain iteration of an equally seeded build
+                pairs = sorted(src.items())
+                keyed = {
+                    'shuffle().items()': (lambda: ds.shuffle(rng=np.random.RandomState(seed))),
+                    'shuffle().shuffle(True, buffer_size).items()': (lambda: ds.shuffle(rng=np.random.RandomState(seed)).shuffle(True, buffer_size=2, rng=np.random.RandomState(seed))),
+                    'shuffle(True).items()': (lambda: ds.shuffle(True, rng=np.random.RandomState(seed))),
+                    'shuffle(True).copy(freeze=True).items()': (lambda: ds.shuffle(True, rng=np.random.RandomState(seed)).copy(freeze=True)),
+                }
+                if n:
+                    keyed['random_choice(size).items()'] = (lambda: ds.random_choice(size, rng_state=np.random.RandomState(seed)))
+                for nm, mk in keyed.items():
+                    try:
+                        ki = [tuple(kv) for kv in mk().items()]
+                        plain = list(mk())
+                    except Exception as e:  # noqa
+                        fails.append(('shuffled_items_raise', {'view': nm, 'values': vals, 'error': repr(e)[:200]}))
+                        continue
+                    if not set(ki) <= set(pairs) or len(set(ki)) != len(ki) or [v for _, v in ki] != plain \
+                            or ('choice' not in nm and sorted(ki) != pairs):
+                        fails.append(('shuffled_items_not_input_pairs', {'view': nm, 'input_pairs': pairs, 'items': ki, 'plain_iteration': plain}))
+                np.random.seed(seed % (1 << 31))
+                tki = [tuple(kv) for kv in ds.tile(reps, shuffle=True).items()] if reps == 1 else None
+                if tki is not None and sorted(tki) != pairs:
+                    fails.append(('shuffled_items_not_input_pairs', {'view': 'tile(1, shuffle=True).items()', 'input_pairs': pairs, 'items': tki}))
             # buffer-local shuffle: model with the recorded draws + oracle
             bs = rng.choice([1, 2, 3, 4, n + 1])
             rr = RecRng(seed)
